@@ -2,7 +2,7 @@
    This file only restates the property theorems; proofs are in srv/SrvBasics.v, srv/SrvC07.v, srv/SrvC01.v. *)
 From Coq Require Import List NArith ZArith Bool Arith.
 From RecordUpdate Require Import RecordUpdate.
-From JV Require Import Bytes Msg SrvModel SrvLemmas SrvBasics SrvC07 SrvC01.
+From JV Require Import Bytes Msg SrvModel SrvLemmas SrvBasics SrvC07 SrvC01 SrvHist SrvC01b.
 From JV Require SrvNoCrash.
 Import ListNotations.
 
@@ -134,3 +134,62 @@ Theorem c01_quiescent_complete : forall c s, reach c s -> quiescent s = true ->
   (forall u un, nth_error (units s) u = Some un -> u_st un <> UAtDeliver).
 Proof. exact SrvNoCrash.c01_quiescent_complete_nc. Qed.
 Print Assumptions c01_quiescent_complete.
+
+(* 7. units are the accepted inbound messages, first in first out.  [accepted s0 tr] is the ghost history of the
+      run: what every reader window appended to the work queue (batch flag of the record, its request and
+      notification members), in trace order; [alog] is the same with stops applied: a window that stops the server
+      ([stop_window]: running before, not after) keeps the entries already dispatched and rewrites the queued ones
+      with stop_queue (one message per retained notification).  jmem m = (fixID'ed id, method, params) of a
+      member, tmem t = the same of a task, unit_hist s = the dispatch units of s as (batch flag, members). *)
+Theorem c01_units_are_accepted_fifo : forall c tr s oss,
+  run (init_of c) tr = Some (s, oss) -> stop_free (init_of c) tr = true ->
+  unit_hist s ++ map qmem (inq s) = map qmem (accepted (init_of c) tr).
+Proof. exact SrvHist.units_are_accepted_fifo. Qed.
+Print Assumptions c01_units_are_accepted_fifo.
+
+Theorem c01_units_fifo_with_stops : forall c tr s oss, run (init_of c) tr = Some (s, oss) ->
+  exists done, alog (init_of c) tr [] = done ++ inq s /\ map qmem done = unit_hist s.
+Proof. exact SrvHist.hist_units_fifo. Qed.
+Print Assumptions c01_units_fifo_with_stops.
+
+Theorem c01_unit_hist_nth : forall s u un, nth_error (units s) u = Some un ->
+  nth_error (unit_hist s) u = Some (u_batch un, map tmem (unit_tasks s u)).
+Proof. exact SrvHist.unit_hist_nth. Qed.
+Print Assumptions c01_unit_hist_nth.
+
+(* one window: a stop rewrites the queue, any other window appends what its reader accepted *)
+Theorem c01_hist_window : forall c s l s' os, reach c s -> step s l = Some (s', os) ->
+  unit_hist s' ++ map qmem (inq s') =
+  unit_hist s ++ map qmem (if stop_window s s' then stop_queue (inq s) else inq s ++ acc_raw s l).
+Proof. exact SrvHist.hist_window. Qed.
+Print Assumptions c01_hist_window.
+
+Theorem c01_stop_queue_singletons : forall q,
+  Forall (fun bm => exists m, snd bm = [m] /\ keep_note m = true) (stop_queue q).
+Proof. exact SrvHist.stop_queue_singletons. Qed.
+Print Assumptions c01_stop_queue_singletons.
+
+Theorem c01_stop_window_label : forall c s l s' os, reach c s -> step s l = Some (s', os) -> stop_window s s' = true ->
+  (exists n, l = LRelStop n) \/ (l = LRelRead /\ exists e, rd s = RHold (FErr e)).
+Proof. exact SrvHist.stop_window_label. Qed.
+Print Assumptions c01_stop_window_label.
+
+(* 8. the message sent by the deliver window of unit u answers log entry number u: it is an array iff that inbound
+      message was an array (same flag b), and the replies that carry an id are those of the calls of that message,
+      in request order. *)
+Theorem c01_send_answers_accepted : forall c tr s oss u s' os ok b rs,
+  run (init_of c) tr = Some (s, oss) -> step s (LRelDeliver u) = Some (s', os) -> In (OSend ok b rs) os ->
+  exists ms, nth_error (alog (init_of c) tr []) u = Some (b, ms) /\
+    rs = responses (unit_tasks s u) /\ map tmem (unit_tasks s u) = map jmem ms /\
+    map r_id (filter has_id rs) = call_ids ms.
+Proof. exact SrvC01b.c01_send_answers_accepted. Qed.
+Print Assumptions c01_send_answers_accepted.
+
+Theorem c01_send_answers_accepted_nostop : forall c tr s oss u s' os ok b rs,
+  run (init_of c) tr = Some (s, oss) -> stop_free (init_of c) tr = true ->
+  step s (LRelDeliver u) = Some (s', os) -> In (OSend ok b rs) os ->
+  exists ms, nth_error (accepted (init_of c) tr) u = Some (b, ms) /\
+    rs = responses (unit_tasks s u) /\ map tmem (unit_tasks s u) = map jmem ms /\
+    map r_id (filter has_id rs) = call_ids ms.
+Proof. exact SrvC01b.c01_send_answers_accepted_nostop. Qed.
+Print Assumptions c01_send_answers_accepted_nostop.
